@@ -187,6 +187,80 @@ func nested(variant int) []c01.N {
 		h(str("after-cb"), id("cbn"))}
 }
 
+// apiCall: a call made from Go on an idle runtime with stack depth limit `limit`, and the program
+// that is equivalent to it for the specification: Otto.Call("rec", nil, d) and Value.Call of the
+// built-in Function.prototype.call enter a global context first, so they are `rec(d)` /
+// `rec.call(null, d)` under the same limit; Value.Call of a script function enters no global
+// context (its own context takes that place), which is `rec(d)` under limit + 1.
+type apiCall struct {
+	form    string
+	limit   int // configured on the runtime
+	eqLimit int // of the equivalent program
+	d       int
+	setup   string
+	prog    []c01.N
+}
+
+func apiCalls() []*apiCall {
+	id, num := c01.Id, c01.Num
+	decl := c01.FDecl("rec", []string{"d"}, c01.Expr(c01.Call(id("H"), id("d"))),
+		c01.If(c01.Bin(">", id("d"), num(0)), c01.Return(c01.Bin("+", num(1), c01.Call(id("rec"), c01.Bin("-", id("d"), num(1))))), nil), c01.Return(num(0)))
+	setup := c01.RenderProgram([]c01.N{decl})
+	var out []*apiCall
+	for _, L := range []int{3, 4, 6} {
+		for _, form := range []string{"otto.Call", "Value.Call(script function)", "Value.Call(built-in call)", "Object.Call(built-in call)"} {
+			for d := L - 3; d <= L+1; d++ {
+				if d < 0 {
+					continue
+				}
+				a := &apiCall{form: form, limit: L, eqLimit: L, d: d, setup: setup}
+				call := c01.Call(id("rec"), num(d))
+				switch form {
+				case "Value.Call(script function)":
+					a.eqLimit = L + 1
+				case "Value.Call(built-in call)", "Object.Call(built-in call)":
+					call = c01.Call(c01.Dot(id("rec"), "call"), c01.Null(), num(d))
+				}
+				a.prog = []c01.N{decl, c01.Expr(call)}
+				out = append(out, a)
+			}
+		}
+	}
+	return out
+}
+
+// runAPI declares rec by a script, then makes the call through the API while the runtime is idle.
+func (r *runner) runAPI(a *apiCall) (obs c01.Obs, panicked any) {
+	if _, p := r.run(a.setup); p != nil {
+		return c01.Obs{}, p
+	}
+	r.log = nil
+	defer func() {
+		if p := recover(); p != nil {
+			panicked = p
+			obs = c01.Obs{Log: r.log, Thr: []int{}, V: map[string]any{"t": "undef"}}
+			if obs.Log == nil {
+				obs.Log = [][]any{}
+			}
+		}
+	}()
+	var v otto.Value
+	var err error
+	rec, _ := r.vm.Get("rec")
+	switch a.form {
+	case "otto.Call":
+		v, err = r.vm.Call("rec", nil, a.d)
+	case "Value.Call(script function)":
+		v, err = rec.Call(otto.UndefinedValue(), a.d)
+	case "Value.Call(built-in call)":
+		callFn, _ := rec.Object().Get("call")
+		v, err = callFn.Call(rec, nil, a.d)
+	default:
+		v, err = rec.Object().Call("call", nil, a.d)
+	}
+	return c01.MakeObs(r.log, v, err), nil
+}
+
 type runner struct {
 	vm  *otto.Otto
 	log [][]any
@@ -257,7 +331,7 @@ func Check(c *core.Ctx) (map[string]any, []string, error) {
 		n, err := busyLoops(c)
 		return map[string]any{"busy_loop_forms_interrupted": n}, nil, err
 	}
-	nProg, maxInj := 100, 60
+	nProg, maxInj := 72, 60
 	if c.Thorough() {
 		nProg, maxInj = 1500, 100000
 	}
@@ -271,6 +345,7 @@ func Check(c *core.Ctx) (map[string]any, []string, error) {
 	type rec struct {
 		line traceLine
 		src  string
+		api  *apiCall // non-nil: the last statement is made through the API on the idle runtime instead
 	}
 	recs := make([]*rec, nProg)
 	for i := range recs {
@@ -287,6 +362,14 @@ func Check(c *core.Ctx) (map[string]any, []string, error) {
 		recs[i] = &rec{src: c01.RenderProgram(p)}
 		recs[i].line.ID, recs[i].line.Prog, recs[i].line.Follow, recs[i].line.Limit = i+1, p, follow, limit
 	}
+	// the stack depth limit seen from the API: a call made from Go while the runtime is idle admits
+	// exactly the nesting the specification gives for the equivalent program (see apiCall)
+	for _, a := range apiCalls() {
+		r := &rec{src: c01.RenderProgram(a.prog), api: a}
+		r.line.ID, r.line.Prog, r.line.Follow, r.line.Limit = len(recs)+1, a.prog, follow, a.eqLimit
+		recs = append(recs, r)
+	}
+	nProg = len(recs)
 	var wg sync.WaitGroup
 	jobs := make(chan *rec, 64)
 	var mu sync.Mutex
@@ -298,8 +381,19 @@ func Check(c *core.Ctx) (map[string]any, []string, error) {
 			for r := range jobs {
 				err := watchdog(func() {
 					// uninterrupted run (hook counts polls), then the follow-up on the same runtime
-					full := newRunner(0, nil, r.line.Limit, r.line.ID/6)
-					o1, p1 := full.run(r.src)
+					limit := r.line.Limit
+					if r.api != nil {
+						limit = r.api.limit
+					}
+					full := newRunner(0, nil, limit, r.line.ID/6)
+					var o1 c01.Obs
+					var p1 any
+					if r.api != nil {
+						o1, p1 = full.runAPI(r.api)
+						full.hs.count = 0 // no injections: the abort points of these programs are covered by the recursion family
+					} else {
+						o1, p1 = full.run(r.src)
+					}
 					if p1 != nil {
 						c.Violate(fmt.Sprintf("Go panic %v escaped Run without any interrupt armed:\n%s", p1, r.src), map[string]any{"source": r.src})
 					}
